@@ -31,6 +31,7 @@ func init() {
 			ruleLateFramesInert(c, "C08.6")
 			ruleEmitIDs(c, "C08.7")
 			ruleErrorDiscipline(c, "C08.9")
+			ruleCarrierWrappers(c, "C08.10")
 		},
 		Explain:    "Static necessary conditions of unique, increasing ids and one handler invocation per RPC: allocation and first send inside one continuously held mutex; counter written only by +1 under the channel mutex, post-increment value used, overflow test first; stream handed out only after a successful new_stream send (entry removed and no watcher otherwise); server-side id validation by exactly `<=` against the high-water mark with tunnel-level refusal; the dispatched descriptor and implementation come from one lookup of this frame's own service/method names; exactly one dispatch spawn and one handler call per arm; late frames inert.",
 		Assume:     []string{"lock identity is type + field", "grpchan.HandlerMap.QueryService returns the registered service"},
